@@ -24,6 +24,7 @@ import abc
 import enum
 import string
 import itertools
+import copy
 import queue
 import io
 import textwrap
@@ -976,7 +977,9 @@ class DFA:
 
                 # Create transition to add
                 culled_transition.on_values = list(relevant_values | irrelevant_values)
-                culled_transition.attach(*chain_actions, prepend=True)
+                # (the byte these transitions consume belongs to the chained DFA: an append among the chained actions that
+                #  finds its output full must leave it to the handler, as an append of a foreach does)
+                culled_transition.attach(*(_action_for_next_byte(x) for x in chain_actions), prepend=True)
                 culled_chained_transitions.append(culled_transition)
 
             for new_transition in culled_chained_transitions:
@@ -1965,6 +1968,22 @@ class AppendCharTo(Action, HasDefaultDebugInfo):
 
     def modifies(self):
         return [self.into_storage]
+
+def _action_for_next_byte(action: Action) -> Action:
+    """
+    A copy of an action that is chained onto the first transitions of what follows it, in which constant
+    appends know that the byte they run on has not been consumed on their behalf
+    """
+
+    if isinstance(action, AppendCharTo) and not action.runs_for_each_character:
+        new_action = copy.copy(action)
+        new_action.runs_for_each_character = True
+        return new_action
+    if isinstance(action, ConditionalAction):
+        new_action = copy.copy(action)
+        new_action.sub_actions = {k: [_action_for_next_byte(x) for x in v] for k, v in action.sub_actions.items()}
+        return new_action
+    return action
 
 class SetTo(Action, HasDefaultDebugInfo):
     def __init__(self, value_expr: "IntegerExpr", into_storage: "OutputStorage"):
